@@ -121,7 +121,8 @@ write attempts failed) — or the item ended well (`res = "ok"`) with exactly th
 reserved from one entry, and then either the write succeeded and the node is associated with that entry, or
 the cache shows the node already holding exactly those CIDRs (the "answer was lost" case) -/
 theorem item_keeps_only_justified_reservations (s : Sys) (hwf : s.alloc.WF) (n : NodeObj) (refresh : Bool)
-    (ws : List WOut) (hn : n.hasCidrs = false) :
+    (ws : List WOut) (hn : n.hasCidrs = false)
+    (hr : refresh = true → (getNode s.api.nodes n.name).isSome = true) :
     AllocEqv s.alloc (allocateOrOccupy s n refresh ws).1.alloc ∨
     ∃ al cidrs i, s.alloc.prioritized (s.alloc.ordered n.labels true) = (al, some (cidrs, i)) ∧
       (allocateOrOccupy s n refresh ws).2.res = "ok" ∧
@@ -183,9 +184,52 @@ theorem item_keeps_only_justified_reservations (s : Sys) (hwf : s.alloc.WF) (n :
           · exact Or.inl h
           · exact Or.inr ⟨al, cidrs, i, rfl, h.1, h.2⟩
         split
-        · split
+        · rename_i hrt
+          have hsome := hr hrt
+          split
           · exact fin _ rfl
-          · exact fin _ rfl
+          · rename_i hnone
+            rw [hnone] at hsome
+            cases hsome
         · exact fin _ rfl
+
+/-- the remaining case: the node left the cache in the middle of the item.  The item gives its reservation
+back (`a₁` is equivalent to the state before the item), and what happens next is exactly the delete
+handler of that cache update releasing the node's final pod CIDRs -/
+theorem vanished_mid_item (s : Sys) (hwf : s.alloc.WF) (n : NodeObj) (ws : List WOut) (hn : n.hasCidrs = false)
+    (hgone : getNode s.api.nodes n.name = none) :
+    (∃ a₁, AllocEqv s.alloc a₁ ∧ (allocateOrOccupy s n true ws).1.alloc = a₁) ∨
+    ∃ a₁, AllocEqv s.alloc a₁ ∧
+      (allocateOrOccupy s n true ws).1.alloc = (releaseCIDR a₁ ((getNode s.api.graves n.name).getD n)).1 := by
+  unfold allocateOrOccupy
+  rw [if_neg (by simp [hn])]
+  cases hp : s.alloc.prioritized (s.alloc.ordered n.labels true) with
+  | mk al r =>
+    cases r with
+    | none =>
+      left
+      exact ⟨al, (refused_attempt_reserves_nothing hwf _ hp).1, rfl⟩
+    | some ci =>
+      obtain ⟨cidrs, i⟩ := ci
+      simp only
+      obtain ⟨a'', hrel, heqv, _⟩ := prioritized_then_release hwf _ hp
+      split
+      · left
+        rename_i he
+        have hc : cidrs = [] := by simpa using he
+        subst hc
+        simp only [Alloc.releaseAll, Prod.mk.injEq] at hrel
+        exact ⟨al, hrel.1 ▸ heqv, rfl⟩
+      · right
+        simp only [if_true, hgone]
+        refine ⟨a'', heqv, ?_⟩
+        have hv : getNode (delNode s.nodeView n.name) n.name = none := by
+          unfold getNode delNode
+          rw [List.find?_eq_none]
+          intro x hx
+          have := (List.mem_filter.mp hx).2
+          simpa using this
+        unfold updateCIDRsAllocation
+        simp only [hv, hrel]
 
 end Ipam.C04
